@@ -1,0 +1,23 @@
+//go:build verif
+
+package search
+
+// C02/C03 (persistent-query results may only skip work): the match bitsets of
+// a search are saved as the segment's persistent query results (PQMR) only
+// when the search covered the WHOLE segment, because records outside the query
+// window are cleared in those bitsets.  Blocks of a segment are not ordered by
+// time (late events), so "whole segment" means every block's [LowTs, HighTs]
+// lies inside the query window — each block, not the first and the last.
+// Checked by /verif/bin/govc.  Comment-only file.
+
+//@ spec blockInside(w *dtu.TimeRange, b *structs.BlockSummary) bool = w.StartEpochMs <= b.LowTs && b.LowTs <= w.EndEpochMs && w.StartEpochMs <= b.HighTs && b.HighTs <= w.EndEpochMs
+//@ func containsWholeSegment
+//@   props C02 C03
+//@   requires queryWindow != nil
+//@   requires forall(k, 0, len(allBlockSummaries), allBlockSummaries[k] != nil)
+//@   pure
+//@   loop 1:
+//@     invariant [scanned-blocks-are-inside] forall(k, 0, rangeindex+1, blockInside(queryWindow, allBlockSummaries[k]))
+//@   ensures [true-only-if-every-block-is-inside-the-window] implies(result, forall(k, 0, len(allBlockSummaries), blockInside(queryWindow, allBlockSummaries[k])))
+//@   ensures [true-if-every-block-is-inside-the-window] implies(forall(k, 0, len(allBlockSummaries), blockInside(queryWindow, allBlockSummaries[k])), result)
+//@ end
